@@ -148,10 +148,22 @@ type WrapSentinel struct {
 func (w *WrapSentinel) Error() string { return w.Msg }
 func (w *WrapSentinel) Unwrap() error { return w.Inner }
 
+// TimeoutSentinel is a transport error of the deadline kind: it satisfies net.Error with
+// Timeout() and Temporary() true (like os.ErrDeadlineExceeded or a read past SetReadDeadline).
+type TimeoutSentinel struct{ Msg string }
+
+func (t *TimeoutSentinel) Error() string   { return t.Msg }
+func (t *TimeoutSentinel) Timeout() bool   { return true }
+func (t *TimeoutSentinel) Temporary() bool { return true }
+
+var _ net.Error = (*TimeoutSentinel)(nil)
+
 // NewSentinel builds one of the transport error kinds: 0 plain, 1 wrapper around an errno-like
-// error, 2 wrapper whose Unwrap returns nil, 3 *net.OpError, 4 *os.PathError.
+// error, 2 wrapper whose Unwrap returns nil, 3 *net.OpError, 4 *os.PathError, 5 a timeout (net.Error).
 func NewSentinel(kind int, msg string) error {
-	switch kind % 5 {
+	switch kind % 6 {
+	case 5:
+		return &TimeoutSentinel{Msg: msg}
 	case 1:
 		return &WrapSentinel{Msg: msg, Inner: errors.New("inner cause")}
 	case 2:
